@@ -318,6 +318,18 @@ where
             }
         }
         check!(disjoint(ok_addr, core::mem::size_of::<T>(), addr(a), la.size()), "C01: alloc_try_with value overlaps an earlier block");
+        // C10: the position stays a multiple of the minimum alignment in force (the Ok payload sits at an OFFSET inside
+        // the Result slot, which need not be a multiple of MIN_ALIGN), and the next block is disjoint from the value
+        let p = addr(bump.stats().current_chunk().unwrap().bump_position());
+        check!(p % St::MIN_ALIGN == 0, "C10: bump position is not a multiple of the minimum alignment after alloc_try_with returned Ok");
+        let ln = any_layout(4, 2);
+        if let Ok(n) = bump.allocate(ln) {
+            let n = addr(n.cast());
+            check!(n % ln.align() == 0, "C01: block after alloc_try_with misaligned");
+            check!(disjoint(n, ln.size(), ok_addr, core::mem::size_of::<T>()), "C01: block after alloc_try_with overlaps the value");
+            let p = addr(bump.stats().current_chunk().unwrap().bump_position());
+            check!(p % St::MIN_ALIGN == 0, "C10: bump position is not a multiple of the minimum alignment after the allocation that followed alloc_try_with");
+        }
     }
     check!(unsafe { w1.read(addr(a) + ia) } == va, "C03: an allocation made before changed");
     kani::cover!(true, "END: harness ran to completion");
@@ -342,5 +354,10 @@ try_with_harness!(scope_try_with_fits_up1, S<1, true>, u16, u8, false, 0);
 try_with_harness!(scope_try_with_mut_bigerr_up1, S<1, true>, u16, [u32; 2], true, 0);
 try_with_harness!(scope_try_with_mut_bigerr_down1, S<1, false>, u16, [u32; 2], true, 0);
 try_with_harness!(scope_try_with_mut_bigerr_spill_up4, S<4, true>, u16, [u64; 3], true, 1);
+// payload size a multiple of MIN_ALIGN, payload OFFSET inside the Result not (Result<[u8;2],u8>: offset 1; Result<[u32;2],u32>: offset 4)
+try_with_harness!(scope_try_with_payload_offset_up2, S<2, true>, [u8; 2], u8, false, 0);
+try_with_harness!(scope_try_with_mut_payload_offset_down2, S<2, false>, [u8; 2], u8, true, 0);
+try_with_harness!(scope_try_with_mut_payload_offset_up8, S<8, true>, [u32; 2], u32, true, 0);
+try_with_harness!(scope_try_with_payload_offset_down8, S<8, false>, [u32; 2], u32, false, 0);
 scope_unallocated_harness!(scope_unallocated_scoped_va_down1, VA, S<1, false, false>, 0, 32);
 scope_unallocated_harness!(scope_unallocated_guard_va_up1, VA, S<1, true, false>, 1, 32);
